@@ -25,7 +25,7 @@ LEVEL_NOTE = ('Trusted: Lean kernel, float sqrt/cos/sin/atan2 (model run at Floa
               'non-finite coordinates outside the mask (or a one-sample mask) give NaN instead of 0. Unproven clauses: |Z| <= 1 unnormalised '
               '(sampled by the oracle); orthonormality for 20 < n <= 40 only in the thorough tier; the float sqrt/ceil row search of zernike_index beyond the sampled range of j.')
 TECHNIQUE = 'Lean 4 proof (omega/induction, decide +kernel exact rational tables) + hand model with differential correspondence'
-GEN = ['ZernikeR']
+GEN = ['ZernikeR', 'Mesh']
 OPS = ['C11']
 RULE = ('cases: every Noll index 1..861 (all 41 rows n <= 40) against zernike_index; every valid (n, m) with n <= 40 for the radial '
         'coefficients (exact rational evaluation at dyadic nodes); modes j <= 231 (some to 861) on dyadic (rho, theta) nodes with both '
